@@ -64,6 +64,19 @@ def worker(args):
             stats["cases"] += 1
             stats["classes"][r["meta"]["class"]] = stats["classes"].get(r["meta"]["class"], 0) + 1
             stats["features"] += len(obj.features); stats["rows"] += len(X)
+            if rng.random() < 0.5:
+                # read-only observers between fit and transform: summary(), history(), to_json() must not change the mapping
+                import warnings
+                with warnings.catch_warnings():
+                    warnings.simplefilter("ignore")
+                    try:
+                        obj.summary()
+                        if hasattr(obj, "history"):
+                            obj.history()
+                        obj.to_json()
+                        stats["observed_first"] = stats.get("observed_first", 0) + 1
+                    except Exception:
+                        pass
             fs = check_object(drv, obj, X)
             try:
                 obj2, _ = fitgen.reload_obj(obj)
